@@ -137,53 +137,7 @@ func renumberRows(rows []siteRow, norm func([]string) []string) []siteRow {
 				all = append(all, alts...)
 			}
 			if okDNF {
-				for i := range all {
-					sort.Strings(all[i])
-					all[i] = uniq(all[i])
-				}
-				all = absorbAlts(all)
-				trivial := len(all) == 0
-				for _, a := range all {
-					if len(a) == 0 {
-						trivial = true
-					}
-				}
-				var attrs []string
-				if !trivial {
-					cnt := map[string]int{}
-					for _, a := range all {
-						for _, l := range a {
-							cnt[l]++
-						}
-					}
-					for l, n := range cnt {
-						if n == len(all) {
-							attrs = append(attrs, l)
-						}
-					}
-					sort.Strings(attrs)
-					var rests []string
-					restTrivial := false
-					for _, a := range all {
-						var rest []string
-						for _, l := range a {
-							if cnt[l] != len(all) {
-								rest = append(rest, l)
-							}
-						}
-						if len(rest) == 0 {
-							restTrivial = true
-						}
-						rests = append(rests, "("+strings.Join(rest, " & ")+")")
-					}
-					sort.Strings(rests)
-					rests = uniq(rests)
-					if !restTrivial && len(rests) > 1 {
-						attrs = append(attrs, "OR{"+strings.Join(rests, " | ")+"}")
-					} else if !restTrivial && len(rests) == 1 {
-						attrs = append(attrs, strings.Split(rests[0][1:len(rests[0])-1], " & ")...)
-					}
-				}
+				attrs := renderDNF(all)
 				out[g[0].idx].Key = b + "#1"
 				out[g[0].idx].Attrs = attrs
 				for _, e := range g[1:] {
@@ -277,71 +231,9 @@ func (c *Ctx) reachConds(b *ssa.BasicBlock) []string {
 	out := c.guardStrs(b)
 	if !useDomGuards && os.Getenv("FPCHECK_OLD_REACH") == "" {
 		// the conditions under which b is reached, as a disjunction of conjunctions: what every path has in common,
-		// and the alternatives in which the paths differ (simplified: x ∨ ¬x∧R = x ∨ R, supersets dropped)
-		if _, residual := pathGuards(b); len(residual) > 1 {
-			var alts [][]string
-			for _, set := range residual {
-				var lits []string
-				for _, g := range set {
-					lits = append(lits, c.guardStr(g))
-				}
-				sort.Strings(lits)
-				alts = append(alts, uniq(lits))
-			}
-			alts = absorbAlts(alts)
-			trivial := len(alts) <= 1
-			for _, a := range alts {
-				if len(a) == 0 {
-					trivial = true
-				}
-			}
-			if !trivial {
-				// literals that became common through simplification move out of the disjunction
-				cnt := map[string]int{}
-				for _, a := range alts {
-					for _, l := range a {
-						cnt[l]++
-					}
-				}
-				have := map[string]bool{}
-				for _, g := range out {
-					have[g] = true
-				}
-				var rests []string
-				restTrivial := false
-				for l, n := range cnt {
-					if n == len(alts) && !have[l] {
-						out = append(out, l)
-					}
-				}
-				for _, a := range alts {
-					var rest []string
-					for _, l := range a {
-						if cnt[l] != len(alts) {
-							rest = append(rest, l)
-						}
-					}
-					if len(rest) == 0 {
-						restTrivial = true
-					}
-					rests = append(rests, "("+strings.Join(rest, " & ")+")")
-				}
-				sort.Strings(rests)
-				rests = uniq(rests)
-				if !restTrivial && len(rests) > 1 {
-					out = append(out, "OR{"+strings.Join(rests, " | ")+"}")
-				}
-			} else if len(alts) == 1 {
-				have := map[string]bool{}
-				for _, g := range out {
-					have[g] = true
-				}
-				for _, l := range alts[0] {
-					if !have[l] {
-						out = append(out, l)
-					}
-				}
-			}
+		// and the alternatives in which the paths differ (simplified, see renderDNF)
+		if alts := c.pathAlts(b); len(alts) > 0 {
+			return renderDNF(alts)
 		}
 		return out
 	}
@@ -977,13 +869,32 @@ func (c *Ctx) edgeConds(pred, succ *ssa.BasicBlock) []string {
 	if len(alts) == 0 || useDomGuards {
 		return edgeGuards(c, pred, succ)
 	}
+	return renderDNF(alts)
+}
+
+// renderDNF states a disjunction of conjunctions of rendered literals as attributes: the literals common to all
+// alternatives, then one OR{(…) | (…)} over what is left of each. Before that each alternative loses what its own
+// equalities imply (`5 == x` makes `2 != x` redundant: which other cases a switch tried first does not matter), and
+// the disjunction is simplified (absorbAlts). An alternative that ends up empty makes the whole condition "always".
+func renderDNF(in [][]string) []string {
+	var alts [][]string
+	for _, a := range in {
+		x := dropImplied(uniq(append([]string{}, a...)))
+		sort.Strings(x)
+		alts = append(alts, x)
+	}
 	alts = absorbAlts(alts)
 	if len(alts) == 0 {
 		return nil
 	}
+	for _, a := range alts {
+		if len(a) == 0 {
+			return nil
+		}
+	}
 	cnt := map[string]int{}
 	for _, a := range alts {
-		for _, l := range uniq(append([]string{}, a...)) {
+		for _, l := range a {
 			cnt[l]++
 		}
 	}
@@ -1006,13 +917,65 @@ func (c *Ctx) edgeConds(pred, succ *ssa.BasicBlock) []string {
 		if len(rest) == 0 {
 			trivial = true
 		}
-		sort.Strings(rest)
-		rests = append(rests, "("+strings.Join(uniq(rest), " & ")+")")
+		rests = append(rests, "("+strings.Join(rest, " & ")+")")
 	}
 	sort.Strings(rests)
 	rests = uniq(rests)
 	if !trivial && len(rests) > 1 {
 		out = append(out, "OR{"+strings.Join(rests, " | ")+"}")
+	}
+	return out
+}
+
+// dropImplied removes from a conjunction the disequalities with constants that an equality with another constant
+// in the same conjunction implies.
+func dropImplied(lits []string) []string {
+	isConst := func(t string) bool {
+		if t == "" {
+			return false
+		}
+		if t[0] == '"' || t == "nil" || t == "true" || t == "false" {
+			return true
+		}
+		for i, ch := range t {
+			if !(ch >= '0' && ch <= '9') && !(i == 0 && ch == '-') {
+				return false
+			}
+		}
+		return true
+	}
+	eq := map[string]string{} // expression -> constant it equals
+	for _, l := range lits {
+		if !strings.HasPrefix(l, "+") {
+			continue
+		}
+		if a, op, b, ok := splitCmp(l[1:]); ok && op == "==" {
+			if isConst(a) && !isConst(b) {
+				eq[b] = a
+			} else if isConst(b) && !isConst(a) {
+				eq[a] = b
+			}
+		}
+	}
+	if len(eq) == 0 {
+		return lits
+	}
+	var out []string
+	for _, l := range lits {
+		if strings.HasPrefix(l, "+") {
+			if a, op, b, ok := splitCmp(l[1:]); ok && op == "!=" {
+				if isConst(a) && !isConst(b) {
+					if k, has := eq[b]; has && k != a && k != "nil" {
+						continue
+					}
+				} else if isConst(b) && !isConst(a) {
+					if k, has := eq[a]; has && k != b && k != "nil" {
+						continue
+					}
+				}
+			}
+		}
+		out = append(out, l)
 	}
 	return out
 }
